@@ -166,11 +166,14 @@ def replay_heap(case):
 # ------------------------------------------------------------------ memory map (E1)
 
 def root_stems(circuit):
-    """line index -> index of the line at the root of its fork chain (own traversal)"""
+    """line index -> index of the line at the root of its fork chain (own traversal).  A fork that is a port is the root of
+    its branches even if it has a driver (bench-style output that is read inside the circuit): the simulators assign the
+    port, so its branches carry the assigned value and not the value of the line that drives the port."""
     stem = {}
+    ports = {id(n) for n in circuit.io_nodes}
     for l in circuit.lines:
         x = l
-        while x.driver.kind == '__fork__' and len(x.driver.ins) > 0 and x.driver.ins[0] is not None:
+        while x.driver.kind == '__fork__' and id(x.driver) not in ports and len(x.driver.ins) > 0 and x.driver.ins[0] is not None:
             x = x.driver.ins[0]
         stem[l.index] = x.index
     return stem
